@@ -15,6 +15,11 @@
 (*            (FTPClient._process_ftp_command -> _store_data)              *)
 (*   SrvRetr  server handles RETR  (FTPServiceABC._retrieve_data; the      *)
 (*            client's CliData is nested in it and returns first)          *)
+(*   SendFail the network interface of the sender refused a frame of the   *)
+(*            call (WiredNetworkInterface.send_frame returned False: "Frame *)
+(*            dropped as Link is at capacity" / interface disabled): an     *)
+(*            environment fault inside the call; IOSoftware.send then       *)
+(*            returns False to the FTP service                              *)
 (* plus the tick phase Tick (FTPServiceABC.pre_timestep) and the           *)
 (* environment actions SvcReq, Power, Block, CreateFile, DeleteFile, Env.  *)
 (*                                                                         *)
@@ -61,10 +66,16 @@
 (*       the connection is gone; RETR - the file exists on the server and  *)
 (*       was delivered to the client; the API call returns True iff its    *)
 (*       transfer took place (protocols/ftp.py FTPStatusCode docstrings;   *)
-(*       request_file "the payload should have ok status code").           *)
+(*       request_file "the payload should have ok status code").  In       *)
+(*       particular a data frame that could not leave its sender (SendFail;*)
+(*       IOSoftware.send: "True if the payload was successfully sent,      *)
+(*       False otherwise", _send_data: "if response and status OK") is     *)
+(*       nothing delivered: the RETR is not answered OK, the call returns  *)
+(*       False.                                                            *)
 (*  K8 MustSucceed          with everything operational, an existing       *)
 (*       source and a free destination name the call returns True          *)
-(*       (ftp_client.rst Usage).                                           *)
+(*       (ftp_client.rst Usage) - unless a frame of the call was refused   *)
+(*       by the sender's interface (SendFail).                             *)
 (*  K9 ReportedActivity     FTPServiceABC._active: "True on timesteps      *)
 (*       where service transmits data and False when idle"; describe_state *)
 (*       shows a running service as RUNNING only then: both parties of a   *)
@@ -92,7 +103,7 @@ Server == "s"
 Nodes == clients \cup {Server}
 OpStates == {"RUNNING", "STOPPED", "PAUSED", "DISABLED", "RESTARTING", "INSTALLING"}
 Idle == [stage |-> "idle", kind |-> "", c |-> "", src |-> "", dst |-> "", port |-> FALSE, stor |-> FALSE,
-         quit |-> FALSE, found |-> FALSE, data |-> FALSE, last |-> "", ok |-> FALSE]
+         quit |-> FALSE, found |-> FALSE, data |-> FALSE, fault |-> FALSE, last |-> "", ok |-> FALSE]
 
 FtpInit(cl, ex, f, o, p, nt, cn, ac) ==
     /\ clients = cl /\ ext = ex /\ fs = f /\ on = o /\ op = p /\ net = nt
@@ -174,9 +185,16 @@ CliData(c, ty, na) ==
 SrvRetr(c, st, na) ==
     /\ G_InCall(c) /\ call.kind = "retr" /\ call.last \in {"Begin", "SrvPort", "CliData"}
     /\ G_ServerServes /\ G_OnlyRunningClient(c) /\ G_HandshakeFirst(c)
-    /\ (call.last # "CliData") => ~Has(Server, call.src)      \* an existing file is sent before the reply
+    /\ (call.last # "CliData" /\ ~call.fault) => ~Has(Server, call.src)   \* an existing file is sent before the reply
     /\ (st = "OK") = call.data                                                     \* K7
     /\ call' = [call EXCEPT !.found = Has(Server, call.src), !.last = "SrvRetr"]
+    /\ G_Active(na, {c, Server}) /\ active' = na
+    /\ UNCHANGED <<clients, ext, fs, on, op, net, sConn, pre>>
+
+\* the sender's network interface refused a frame of the call (who = "client" | "server")
+SendFail(c, who, na) ==
+    /\ G_InCall(c) /\ who \in {"client", "server"}
+    /\ call' = [call EXCEPT !.fault = TRUE]
     /\ G_Active(na, {c, Server}) /\ active' = na
     /\ UNCHANGED <<clients, ext, fs, on, op, net, sConn, pre>>
 
@@ -192,7 +210,7 @@ Return(c, kind, ok, na) ==
     /\ G_InCall(c) /\ call.kind = kind
     /\ ok = Delivered                                                              \* K5, K7
     /\ (ok /\ kind = "send") => call.quit
-    /\ Promised => ok                                                              \* K8
+    /\ (Promised /\ ~call.fault) => ok                                              \* K8
     /\ G_Active(na, {c}) /\ active' = na      \* (Begin is the entry of the call: the caller's flag may rise until it returns)
     /\ ok => (na[c] /\ na[Server])                                                 \* K9
     /\ call' = [call EXCEPT !.stage = "closed", !.ok = ok, !.last = "Return"]
@@ -280,6 +298,8 @@ FailsWhenNotOperational == (Closed /\ call.ok) =>                               
 OkOnlyOnSuccess == (Closed /\ call.ok) =>                                                          \* K7
     IF call.kind = "send" THEN call.stor /\ call.quit ELSE call.found /\ call.data
 ReportedActivity == (Closed /\ call.ok) => (active[call.c] /\ active[Server])                      \* K9
+\* K7/K8: a call can only fail with everything promised when a frame was refused; a refused data frame fails it
+OnlyFaultExcuses == (Closed /\ ~call.ok /\ ~call.fault) => ~Promised
 \* K6 as an action property
 ConnTableStep ==
     [][sConn' # sConn =>
